@@ -1799,5 +1799,21 @@ func (g *gen) ret(x *ssa.Return, st State, reach string) {
 	for _, r := range x.Results {
 		vs = append(vs, g.materialise(g.val(r), st))
 	}
+	if g.fc != nil && !g.isInline && !g.dry {
+		hasRet := false
+		for _, gs := range g.fc.GhostSets {
+			if gs.AtReturn {
+				hasRet = true
+			}
+		}
+		if hasRet {
+			n := g.ghostSetsApplied
+			g.applyGhostSets(false, "<return>", 0, vs, st)
+			if g.ghostSetsApplied > n && g.retSetsCounted {
+				g.ghostSetsApplied = n // count each `at return` assignment once, however many returns there are
+			}
+			g.retSetsCounted = true
+		}
+	}
 	g.rets = append(g.rets, inlineRet{reach: reach, vals: vs, st: st.clone(), blk: x.Block()})
 }
